@@ -14,8 +14,9 @@ import (
 // side: an edit to one of them is an unclassified change).
 
 type sigGen struct {
-	p   *pkgInfo
-	uns []string
+	p             *pkgInfo
+	uns           []string
+	killedErrArgs []string
 }
 
 // enclosing returns, for every node inside root, the stack of its ancestors.
@@ -106,6 +107,18 @@ func (g *sigGen) handleSignalsFacts() []string {
 				rx, _ = recvExpr(c.X)
 			}
 			if rx != nil && p.chanText(rx) == "sig" {
+				// does the branch that handles a signal leave the goroutine afterwards?
+				for _, st := range x.Body {
+					ast.Inspect(st, func(m ast.Node) bool {
+						if _, ok := m.(*ast.FuncLit); ok {
+							return false
+						}
+						if _, ok := m.(*ast.ReturnStmt); ok {
+							add("returns-after-forward")
+						}
+						return true
+					})
+				}
 				sigRecvs++
 				for i := len(stack) - 1; i >= 0; i-- {
 					if _, ok := stack[i].(*ast.ForStmt); ok {
@@ -161,6 +174,20 @@ func (g *sigGen) runPrologue() (defers []string, killed string) {
 	ast.Inspect(fd.Body, func(n ast.Node) bool {
 		if a, ok := n.(*ast.AssignStmt); ok && len(a.Lhs) == 1 && len(a.Rhs) == 1 && isIdent(a.Lhs[0], "killed") {
 			killed = p.text(a.Rhs[0])
+		}
+		return true
+	})
+	// if killed && err == nil { err = fmt.Errorf(...) }: the arguments of that Errorf
+	ast.Inspect(fd.Body, func(n ast.Node) bool {
+		if is, ok := n.(*ast.IfStmt); ok && strings.Contains(p.text(is.Cond), "killed") {
+			ast.Inspect(is.Body, func(m ast.Node) bool {
+				if c, ok := m.(*ast.CallExpr); ok && p.calleeText(c) == "fmt.Errorf" {
+					for _, a := range c.Args {
+						g.killedErrArgs = append(g.killedErrArgs, p.text(a))
+					}
+				}
+				return true
+			})
 		}
 		return true
 	})
@@ -225,6 +252,7 @@ func genSignals(p *pkgInfo) (string, error) {
 	b.WriteString("(* Run: defers registered before its first return statement *)\n")
 	fmt.Fprintf(&b, "Definition run_leading_defers : list string := %s.\n\n", coqStringList(defers))
 	fmt.Fprintf(&b, "Definition run_killed_expr : string := %s.\n\n", coqString(killed))
+	fmt.Fprintf(&b, "Definition run_killed_errorf_args : list string := %s.\n\n", coqStringList(g.killedErrArgs))
 	b.WriteString("(* normalised bodies of the functions mirrored by hand *)\n")
 	var shapes []string
 	for _, f := range [][2]string{
@@ -232,12 +260,18 @@ func genSignals(p *pkgInfo) (string, error) {
 		{"Program", "Send"}, {"Program", "Quit"}, {"Program", "Kill"}, {"Program", "Wait"}, {"Program", "Println"}, {"Program", "Printf"},
 		{"Program", "handleCommands"}, {"channelHandlers", "shutdown"}, {"Program", "readLoop"}, {"Program", "waitForReadLoop"},
 		{"Program", "exec"}, {"Program", "suspend"}, {"", "Batch"}, {"", "Sequence"}, {"", "compactCmds"},
+		{"standardRenderer", "start"}, {"standardRenderer", "stop"}, {"standardRenderer", "kill"}, {"standardRenderer", "listen"},
+		{"Program", "shutdown"}, {"Program", "recoverFromPanic"}, {"Program", "handlePanic"}, {"Program", "initCancelReader"},
 	} {
 		s, ok := g.shape(f[0], f[1])
 		if !ok {
 			continue
 		}
-		shapes = append(shapes, coqPair(f[1], s))
+		key := f[1]
+		if f[0] != "" && f[0] != "Program" {
+			key = f[0] + "." + f[1]
+		}
+		shapes = append(shapes, coqPair(key, s))
 	}
 	for _, t := range []string{"sequenceMsg", "BatchMsg"} {
 		if s, ok := g.eventLoopCase(t); ok {
